@@ -10,6 +10,7 @@
 package main
 
 import (
+	"flag"
 	"fmt"
 	"io"
 	"os"
@@ -105,6 +106,9 @@ func exec1(line string) string {
 	if len(ws) == 0 {
 		return "bad-op"
 	}
+	if isHistOp(line) {
+		return execHist(line)
+	}
 	switch {
 	case ws[0] == "wf" && len(ws) == 1:
 		return ref.wfLine()
@@ -164,6 +168,11 @@ func main() {
 		iniChild(os.Args[2:])
 		return
 	}
+	if len(os.Args) > 1 && os.Args[1] == "histchild" {
+		histChild()
+		return
+	}
+	pass := flag.String("pass", "convert", "convert | loader")
 	run = hx.Start("C17")
 	defer run.Finish()
 	quiet()
@@ -175,6 +184,7 @@ func main() {
 	}
 	defer os.RemoveAll(tmpDir)
 	defer cfgStopAll()
+	defer histStop()
 
 	run.Rule = "exhaustive on the real code: every byte string of length <= 2 through both converters (65536 two-byte Big5 inputs), " +
 		"every 2- and 3-byte (generalised) UTF-8 encoding of U+0080..U+FFFF through Utf8ToBig5, Big5->UTF-8->Big5 on every two-byte code; " +
@@ -207,7 +217,11 @@ func main() {
 		}
 		return
 	}
-	generate()
+	if *pass == "loader" {
+		generateLoader()
+	} else {
+		generate()
+	}
 	if skipped > 0 {
 		run.Note(fmt.Sprintf("%d Utf8ToBig5 cases skipped after %d stalled calls", skipped, timeouts))
 	}
@@ -218,6 +232,9 @@ func validOp(line string) bool {
 	ws := strings.Fields(line)
 	if len(ws) == 0 {
 		return false
+	}
+	if isHistOp(line) {
+		return validHistOp(ws)
 	}
 	if ws[0] == "cfg" {
 		if len(ws) != 4 || (ws[1] != "d" && ws[1] != "m") || (ws[2] != "b2u" && ws[2] != "u2b") {
@@ -243,6 +260,9 @@ func validOp(line string) bool {
 // ---- labels -------------------------------------------------------------------------------------
 
 func classify(line, out string) string {
+	if isHistOp(line) {
+		return classifyHist(line, out)
+	}
 	ws := strings.Fields(line)
 	suffix := ""
 	if out == "PANIC" || out == "TIMEOUT" {
